@@ -56,3 +56,42 @@ Theorem c03_de_morgan_or :
 Proof. exact Props.c03_de_morgan_or. Qed.
 Print Assumptions c03_de_morgan_or.
 
+
+(* ---- chains: grouping, folds, repeated operands (C03b.v) ---- *)
+From Bexpr Require Import C03b.
+
+Theorem c03_grouping_irrelevant :
+  forall (re : string -> string -> option bool) (cfg : config) (ls : locals) (d : iface) (op : binop) (a b c : expr),
+  eval re cfg ls (EBin op (EBin op a b) c) d = eval re cfg ls (EBin op a (EBin op b c)) d.
+Proof. exact C03b.c03_grouping_irrelevant. Qed.
+Print Assumptions c03_grouping_irrelevant.
+
+Theorem c03_chain_is_fold :
+  forall (re : string -> string -> option bool) (cfg : config) (ls : locals) (d : iface) (op : binop) (es : list expr) (last : expr),
+  eval re cfg ls (chain op es last) d =
+  fold_right (fun (e : expr) (k : outcome) => if stops op (eval re cfg ls e d) then eval re cfg ls e d else k) (eval re cfg ls last d) es.
+Proof. exact C03b.c03_chain_is_fold. Qed.
+Print Assumptions c03_chain_is_fold.
+
+Theorem c03_idempotent :
+  forall (re : string -> string -> option bool) (cfg : config) (ls : locals) (d : iface) (op : binop) (a : expr),
+  eval re cfg ls (EBin op a a) d = eval re cfg ls a d.
+Proof. exact C03b.c03_idempotent. Qed.
+Print Assumptions c03_idempotent.
+
+Theorem c03_later_repeat_is_redundant :
+  forall (re : string -> string -> option bool) (cfg : config) (ls : locals) (d : iface) (op : binop) (a b : expr),
+  eval re cfg ls (EBin op a (EBin op b a)) d = eval re cfg ls (EBin op a b) d.
+Proof. exact C03b.c03_later_repeat_is_redundant. Qed.
+Print Assumptions c03_later_repeat_is_redundant.
+
+Theorem earlier_repeat_matters :
+  let a := EMatch {| stype := SelBexpr; spath := ["a"] |} OpEq (Some "1") in
+  let e := EMatch {| stype := SelBexpr; spath := ["a"] |} OpIsEmpty None in
+  let d := Some (TMap TString TIface, VMap false [(VStr "a", VIface (TInt I0) (VInt 1))]) in
+  let re := fun _ _ : string => None in
+  let cfg := {| tagname := "bexpr"; hook := None; unknown := None |} in
+  eval re cfg [] (EBin BOr a (EBin BOr e a)) d = Out true None /\ is_err (eval re cfg [] (EBin BOr e a) d) = true.
+Proof. exact C03b.earlier_repeat_matters. Qed.
+Print Assumptions earlier_repeat_matters.
+
